@@ -76,6 +76,11 @@ def layouts(tier):
         for rsv in rsvs:
             for nulls in range(4):              # NDEF TLV offset 0..3 mod 4
                 out.append((tc.t2_case(D, prod, nulls, rsv, 2), OLD_TLV, NEW_TLV))
+    # two 1K sectors: the old message reaches into the second one, so the
+    # reader has selected sector 1 before the write starts in sector 0
+    for nulls in ((0, 3) if tier == 'thorough' else (3,)):
+        out.append((tc.t2_case(1136, 'generic', nulls, 'none', 2),
+                    (20, 1100), (30, 1100)))
     t1 = [(120, 0x48, 1), (512, 0x4C, 8)]
     if tier == 'thorough':
         t1 += [(256, 0x00, 8)]
@@ -94,6 +99,12 @@ def layouts(tier):
             for tech in techs:
                 out.append((tc.T4Case(mapping, 255, mlc, 310, 8 if tech == 'A' else 2,
                                       tech), OLD_T4, NEW_T4))
+        # a frame size well below MLc: one UPDATE BINARY is chained over
+        # many ISO-DEP blocks (and stays one command)
+        for mlc in (52, 255, 256):
+            for fsci in ((0, 2, 5) if tier == 'thorough' else (0, 5)):
+                out.append((tc.T4Case(mapping, 255, mlc, 310, fsci, 'A'),
+                            (0, 20, 300), (0, 12, 50, 60, 254, 300)))
     return out
 
 
